@@ -112,7 +112,18 @@ pub fn replay(c: &Value) -> Option<(String, String)> {
     let cfg: Config = serde_json::from_value(c["cfg"].clone()).ok()?;
     let corpus: Corpus = serde_json::from_value(c["corpus"].clone()).ok()?;
     let texts: Vec<String> = gen::strings(&['a', 'b', 'あ', '1'], 1, 3).iter().map(|t| gen::s(t)).collect();
-    (0..8).find_map(|_| check_case(&cfg, &corpus, &texts).1).map(|(k, w)| (sig(&k, &cfg, &corpus), w))
+    // training is randomised: look (up to 8 trainings) for the recorded kind of violation first
+    let stored = c["kind"].as_str().unwrap_or("").to_string();
+    let mut last = None;
+    for _ in 0..8 {
+        if let Some((k, w)) = check_case(&cfg, &corpus, &texts).1 {
+            if k == stored {
+                return Some((sig(&k, &cfg, &corpus), w));
+            }
+            last = Some((sig(&k, &cfg, &corpus), w));
+        }
+    }
+    last
 }
 
 pub fn configs(tier: Tier) -> Vec<Config> {
@@ -157,6 +168,7 @@ pub fn run(tier: Tier) -> ! {
     let chk = Check::new("C11", tier, "exploration");
     quiet_panics();
     mute_stdout();
+    chk.randomised.store(true, std::sync::atomic::Ordering::Relaxed);
     let cfgs = configs(tier);
     let cps = corpora(tier);
     let texts: Vec<String> = gen::strings(&['a', 'b', 'あ', '1'], 1, 3).iter().map(|t| gen::s(t)).collect();
@@ -172,7 +184,7 @@ pub fn run(tier: Tier) -> ! {
                 chk.nontrivial(1);
             }
             if let Some((k, what)) = v {
-                chk.violation(sig(&k, cfg, corpus), what, json!({"cfg": cfg, "corpus": corpus}));
+                chk.violation(sig(&k, cfg, corpus), what, json!({"cfg": cfg, "corpus": corpus, "kind": k}));
             }
         }
     });
@@ -198,7 +210,7 @@ pub fn run(tier: Tier) -> ! {
                 chk.nontrivial(1);
             }
             if let Some((k, what)) = v {
-                chk.violation(sig(&k, cfg, corpus), what, json!({"cfg": cfg, "corpus": corpus}));
+                chk.violation(sig(&k, cfg, corpus), what, json!({"cfg": cfg, "corpus": corpus, "kind": k}));
             }
         }
     });
